@@ -20,6 +20,7 @@ import Driver.CTIRSM4
 import Driver.GenDump
 import Driver.Listing
 import Driver.Asm
+import Driver.AsmArm64
 import Driver.SM4Wrap
 open SMGo
 
@@ -118,6 +119,7 @@ def handle (line : String) : String :=
   if let some r := Driver.GenDump.handle toks then r else
   if let some r := Driver.Listing.handle toks then r else
   if let some r := Driver.Asm.handle toks then r else
+  if let some r := Driver.AsmArm64.handle toks then r else
   if let some r := Driver.SM4Wrap.handle toks then r else
   match toks with
   | ["cmp", a, b, l] =>
